@@ -30,6 +30,8 @@ pub struct ParserRun {
     pub polls: Vec<Poll>,
     /// the iteration was cut at the budget (|x| + 1 + extra polls)
     pub budget_exhausted: bool,
+    /// the events were no longer recorded because their octet strings add up to more than 2|x| + 64 KiB
+    pub events_capped: bool,
     pub stream_alloc: AllocStats,
     pub reassembled: Reassembled,
     /// largest `size_hint().0 - items still to come` seen before any poll (0 if the hint never over-promised)
@@ -56,6 +58,8 @@ pub fn run_parsers(x: &[u8], extra_polls: usize) -> ParserRun {
     let mut polls: Vec<Poll> = Vec::with_capacity(64);
     let mut stream_err = None;
     let mut budget_exhausted = false;
+    let mut events_capped = false;
+    let mut event_bytes = 0usize;
     let mut stream_alloc = AllocStats::default();
     let mut hints: Vec<usize> = Vec::with_capacity(64);
     let budget = x.len() + 2;
@@ -77,8 +81,18 @@ pub fn run_parsers(x: &[u8], extra_polls: usize) -> ParserRun {
                 }
                 Some(Ok(e)) => {
                     polls.push(Poll::Event);
-                    if !ended {
-                        events.push(conv_event(&e));
+                    if !ended && !events_capped {
+                        // entries borrow disjoint parts of x: a parser that hands out more than that is
+                        // wrong already, and its events are no longer kept (they may be gigabytes)
+                        let ev = conv_event(&e);
+                        if let REv::Entry(en) = &ev {
+                            event_bytes += en.name.0.len() + en.sig.as_ref().map_or(0, |h| h.0.len()) + if let crate::smlref::RValue::Bytes(h) = &en.value { h.0.len() } else { 0 };
+                        }
+                        if event_bytes > 2 * x.len() + 65_536 {
+                            events_capped = true;
+                        } else {
+                            events.push(ev);
+                        }
                     }
                 }
                 Some(Err(e)) => {
@@ -125,6 +139,7 @@ pub fn run_parsers(x: &[u8], extra_polls: usize) -> ParserRun {
         stream_panic,
         polls,
         budget_exhausted,
+        events_capped,
         stream_alloc,
         reassembled,
         hint_overpromise,
